@@ -53,4 +53,19 @@ def elementwise(case):
         nd.Derivative(g)(np.array([1.0, 2.0]), 3.0, b=4.0)
         if not seen or any(s != (3.0, 4.0) for s in seen):
             bad.append(dict(problem='args/kwds not forwarded', seen=seen[:3]))
+        for n0 in (0,):
+            del seen[:]
+            got = nd.Derivative(g, n=n0)(np.array([1.0, 2.0]), 3.0, b=4.0)
+            if not seen or any(s != (3.0, 4.0) for s in seen) or not np.array_equal(got, 3.0 * np.array([1.0, 4.0]) + 4.0):
+                bad.append(dict(problem='n=0: args/kwds not forwarded', call='Derivative(g, n=0)(x, 3.0, b=4.0)', seen=seen[:3], got=np.asarray(got).tolist(),
+                                expected=(3.0 * np.array([1.0, 4.0]) + 4.0).tolist()))
     return dict(reproduced=bool(bad), failing=bad[:4], statement='each element of the result is bit-identical to the scalar evaluation of that element')
+
+
+@reg('C08.cconc')
+def cconc(case):
+    import numdifftools as nd
+    from ndvc.concrete import concrete_complex_step_cases
+    cnt, bad = concrete_complex_step_cases(nd)
+    return dict(reproduced=bool(bad), failing=bad[:3], cases=cnt,
+                statement='complex-step methods: an element evaluated inside an array agrees with the same element evaluated alone within the error estimates')
